@@ -15,7 +15,11 @@ from common import hx
 FILES = ["gen/Gen_tensors.v", "Model_voigt.v", "Model_decomp.v", "Proofs_tensors_alg.v"] + \
         [f"Proofs_tensors_rot{i}.v" for i in range(9)] + \
         ["Proofs_tensors_rot.v", "Proofs_tensors_maps.v", "Proofs_tensors_proj.v", "Inst_tensors.v",
-         "Proofs_decomp.v", "Proofs_decomp2.v", "Proofs_decomp3.v", "Model_decomp_series.v", "Proofs_decomp_series.v",
+         "Proofs_decomp.v", "Proofs_decomp2.v", "Proofs_decomp3.v", "Proofs_decomp4.v", "Proofs_decomp5.v",
+         "Model_decomp_series.v", "Proofs_decomp_series.v",
+         # tie T for elasticity_components itself: regenerated from pydrex/diagnostics.py on every run
+         "gen/Gen_decomp.v", "Inst_decomp_base.v", "Inst_decomp_seg0.v", "Inst_decomp_seg1.v", "Inst_decomp_seg2.v",
+         "Inst_decomp.v", "Proofs_decomp_gen.v",
          "Entry_tensors.v", "Extract_tensors.v"]
 PROP = "Properties/C12.v"
 KEYS = ["bulk_modulus", "shear_modulus", "percent_anisotropy", "percent_hexagonal", "percent_tetragonal",
@@ -71,7 +75,8 @@ def run_impl(D, M):
 
     D.la.eigh = eigh
     try:
-        out = D.elasticity_components(np.array(M)[None])
+        # a member presented as a nested Python list is handed over as such (numba refuses it, loudly)
+        out = D.elasticity_components([M] if isinstance(M, list) else np.array(M)[None])
     except Exception as e:  # noqa: BLE001
         return ("ERR", common.exc_code(e), str(e)), rec
     finally:
@@ -184,7 +189,23 @@ def compare(chk, T, D, cases):
 # degenerate stream.
 # --------------------------------------------------------------------------
 FORMS = ("array", "list", "tuple", "fortran", "strided", "readonly", "int", "float32", "lower-garbage", "aliased-list",
-         "broadcast")
+         "broadcast", "reversed", "transposed", "float32-fortran", "mixed-list", "mixed-tuple")
+# per-entry presentations of a mixed series (a list / tuple whose members differ in dtype, layout and container)
+MIX = ("float64", "float32", "fortran", "strided", "list", "int64", "reversed", "readonly")
+ROUNDING = {"int": np.int64, "float32": np.float32, "float32-fortran": np.float32, "int64": np.int64}
+
+
+def entry_dtype(b, c):
+    """dtype an entry is rounded to before it is handed over (None: float64 as it is)"""
+    return ROUNDING.get(c.get("pres")) if b["form"].startswith("mixed") else ROUNDING.get(b["form"])
+
+
+def single_input(b, c):
+    """entry c of series b as it is handed over when it is decomposed alone"""
+    dt = entry_dtype(b, c)
+    if b["form"].startswith("mixed") and c.get("pres") == "list":
+        return np.asarray(c["Min"], dtype=float).tolist()
+    return np.asarray(c["Min"]) if dt is None else np.asarray(c["Min"]).astype(dt)
 SPECIAL = ("isotropic", "cubic", "hexagonal", "tetragonal")   # degenerate eigenvalues: symmetry axes not unique
 SCALES = (1e-3, 0.5, 2.0, 1e3, 1e6)
 
@@ -231,7 +252,9 @@ def gen_batch(T, rng, k, prev=None):
                  ("rotations-of-one", "array"), ("scaled", "array"), ("special-symmetry", "array"), ("hetero", "strided"),
                  ("hetero", "fortran"), ("hetero", "int"), ("hetero", "float32"), ("hetero", "lower-garbage"),
                  ("aliased", "aliased-list"), ("degenerate", "array"), ("hetero", "readonly"), ("permuted", "array"),
-                 ("aliased", "broadcast"), ("hetero", "tuple"), ("empty", "array"), ("degenerate", "list")][k % 20]
+                 ("aliased", "broadcast"), ("hetero", "tuple"), ("empty", "array"), ("degenerate", "list"),
+                 ("hetero", "mixed-list"), ("hetero", "reversed"), ("rotations-of-one", "mixed-tuple"),
+                 ("hetero", "transposed"), ("repeated", "mixed-list"), ("hetero", "float32-fortran")][k % 26]
     draw = lambda: gen_case(T, rng, int(rng.integers(0, 12)))  # noqa: E731
     bad = None
     if fam == "hetero":
@@ -264,7 +287,7 @@ def gen_batch(T, rng, k, prev=None):
     elif fam == "special-symmetry":
         es = [draw() for _ in range(int(rng.integers(1, 4)))]
         for j_ in range(int(rng.integers(1, 3))):   # isotropic first, then cubic, hexagonal, tetragonal
-            es.insert(int(rng.integers(0, len(es) + 1)), special_case(T, rng, SPECIAL[(k // 20 + j_) % 4]))
+            es.insert(int(rng.integers(0, len(es) + 1)), special_case(T, rng, SPECIAL[(k // 26 + j_) % 4]))
     elif fam == "aliased":
         c = draw()
         es = [c] * int(rng.integers(2, 5))
@@ -296,8 +319,17 @@ def gen_batch(T, rng, k, prev=None):
     # what is passed for each entry (Min); entries are re-based when the values themselves change
     if form == "int":
         es = [own_frame(c, np.round(c["M"])) for c in es]
-    elif form == "float32":
+    elif form in ("float32", "float32-fortran"):
         es = [own_frame(c, c["M"].astype(np.float32).astype(float)) for c in es]
+    elif form in ("mixed-list", "mixed-tuple"):
+        off = int(rng.integers(0, len(MIX)))
+        new = []
+        for j_, c in enumerate(es):
+            kd = MIX[(off + j_) % len(MIX)]
+            if kd in ROUNDING:
+                c = own_frame(c, np.round(c["M"]) if kd == "int64" else c["M"].astype(np.float32).astype(float))
+            new.append(dict(c, pres=kd))
+        es = new
     elif form == "lower-garbage":
         es = [dict(c, Min=np.triu(c["M"]) + np.tril(rng.normal(size=(6, 6)) * 100, -1)) for c in es]
     es = [dict(c, Min=c.get("Min", c["M"])) for c in es]
@@ -329,6 +361,15 @@ def build_input(b):
         return arr.astype(np.float32)
     if form == "aliased-list":
         return [mats[0]] * n if n else []
+    if form == "reversed":
+        return G.present(arr, "reversed")                       # negative strides on every axis
+    if form == "transposed":                                    # every 6x6 member is a transposed (F-ordered) view
+        return np.ascontiguousarray(arr.transpose(0, 2, 1)).transpose(0, 2, 1)
+    if form == "float32-fortran":
+        return np.asfortranarray(arr.astype(np.float32))
+    if form in ("mixed-list", "mixed-tuple"):
+        objs = [G.present(m, c["pres"]) for m, c in zip(mats, b["entries"])]
+        return objs if form == "mixed-list" else tuple(objs)
     if form == "broadcast":
         return np.broadcast_to(mats[0], (n, 6, 6)) if n else arr
     return arr
@@ -421,8 +462,7 @@ def _compare_batches(chk, T, D, batches):
         # (1) the caller owns the result: wreck the returned arrays, then call the singles and the series again
         first_rows = None if r[0] == "ERR" else r[1].copy()
         first_out = None if r[0] == "ERR" else r[2]
-        singles = [run_impl(D, c["Min"] if b["form"] not in ("int", "float32") else
-                            np.asarray(c["Min"]).astype(np.int64 if b["form"] == "int" else np.float32))[0] for c in es]
+        singles = [run_impl(D, single_input(b, c))[0] for c in es]
         if first_out is not None:
             arrays = [first_out[k] for k in KEYS] + [first_out["hexagonal_axis"]]
             for i_, a in enumerate(arrays):
@@ -453,7 +493,8 @@ def _compare_batches(chk, T, D, batches):
 
     for bi, (b, (r, rec, singles, r2)) in enumerate(zip(batches, runs)):
         es, n = b["entries"], len(b["entries"])
-        loose = b["form"] == "float32"      # parts of the computation run in binary32: compare K, G, anisotropy at 1e-4
+        # float32 members: parts of the computation run in binary32: compare K, G, anisotropy at 1e-4
+        loose_of = lambda c: entry_dtype(b, c) is np.float32  # noqa: E731
         tag = f"series[{b['family']}/{b['form']}, n={n}]"
         m = mser.get(bi)
         sample = {"family": b["family"], "form": b["form"], "kinds": [c["kind"] for c in es],
@@ -473,7 +514,11 @@ def _compare_batches(chk, T, D, batches):
         if r[0] == "ERR":
             if r[1] != first_err[1]:
                 bad.append((b, f"{tag}: series call raised {r[1]} but the first raising entry raises {first_err[1]} alone"))
-            if b["degenerate"] is None:
+            refused = (b["form"].startswith("mixed") and r[1] in G.REFUSAL and
+                       any(c.get("pres") == "list" and s_[0] == "ERR" for c, s_ in zip(es, singles)))
+            if refused:     # a member that is a nested Python list: refused loudly, alone and in the series alike
+                cov["refused_presentations"] = cov.get("refused_presentations", 0) + 1
+            elif b["degenerate"] is None:
                 bad.append((b, f"{tag}: implementation raised on a well-formed series: {r[1:]}"))
             if r2[0] != "ERR" or r2[1] != r[1]:
                 bad.append((b, f"{tag}: the same call repeated behaves differently ({r[1]} then {r2[:2] if r2[0] == 'ERR' else 'returned'})"))
@@ -505,6 +550,7 @@ def _compare_batches(chk, T, D, batches):
                 st["rows_uninitialised"] += 1
             # (a) implementation row vs series model
             st["rows_vs_series_model"] += 1
+            loose = loose_of(c)
             if flag == 1.0:
                 ncmp = 3 if (loose or sure == 3) else 11
                 ref = mvals[:ncmp]
@@ -542,24 +588,27 @@ def oracle_batch(T, D, b):
 def _oracle_batch(T, D, b):
     es, n = b["entries"], len(b["entries"])
     r1, _ = run_series(D, build_input(b), n, record=False)
-    singles = [run_impl(D, c["Min"])[0] for c in es] if b["form"] not in ("int", "float32") else \
-        [run_impl(D, np.asarray(c["Min"]).astype(np.int64 if b["form"] == "int" else np.float32))[0] for c in es]
+    singles = [run_impl(D, single_input(b, c))[0] for c in es]
     first_err = next((s_ for s_ in singles if s_[0] == "ERR"), None)
     if r1[0] == "ERR":
         if first_err is None:
             return [f"elasticity_components raised on the series ({r1[1:]}) although every entry can be decomposed alone"]
+        if b["form"].startswith("mixed") and r1[1] in G.REFUSAL and r1[1] == first_err[1]:
+            return []       # a nested-list member is refused loudly, alone and in the series alike
         return [] if b["degenerate"] else [f"elasticity_components raised: {r1[1:]}"]
     if first_err is not None:
         return [f"an entry raises {first_err[1]} when decomposed alone but the series call returned"]
-    b0 = dict(b, entries=[dict(c, Min=c["M0"]) for c in es], form=b["form"] if b["form"] in ("array", "list", "tuple", "fortran", "strided", "readonly") else "array")
+    b0 = dict(b, entries=[dict(c, Min=c["M0"], pres="float64") for c in es],
+              form=b["form"] if b["form"] in ("array", "list", "tuple", "fortran", "strided", "readonly", "reversed", "transposed") else
+              ("list" if b["form"].startswith("mixed") else "array"))
     r0, _ = run_series(D, build_input(b0), n, record=False)
     if r0[0] == "ERR":
         return [f"elasticity_components raised on the series of unrotated tensors: {r0[1:]}"]
     f = []
-    loose = b["form"] == "float32"
     for i, c in enumerate(es):
         if c["kind"].startswith("degenerate"):
             continue
+        loose = entry_dtype(b, c) is np.float32
         if not loose:
             for msg in entry_checks(T, c, r0[1][i], r1[1][i]):
                 f.append(f"entry {i} of {n} ({c['kind']}): {msg}")
@@ -579,6 +628,8 @@ def encode_batch(b):
     def enc(c):
         d = encode(c)
         d["Min"] = [hx(v) for v in np.asarray(c["Min"], dtype=float).reshape(-1)]
+        if "pres" in c:
+            d["pres"] = c["pres"]
         return d
     return {"batch": [enc(c) for c in b["entries"]], "family": b["family"], "form": b["form"], "degenerate": b["degenerate"]}
 
@@ -589,6 +640,8 @@ def decode_batch(d):
     for e in d["batch"]:
         c = decode(e)
         c["Min"] = np.array([u(v) for v in e["Min"]]).reshape(6, 6)
+        if "pres" in e:
+            c["pres"] = e["pres"]
         es.append(c)
     return dict(family=d["family"], form=d["form"], degenerate=d.get("degenerate"), entries=es)
 
@@ -619,6 +672,158 @@ def search_batches(chk, T, D, extra=()):
     return found
 
 
+# --------------------------------------------------------------------------
+# call SEQUENCES on one object that the caller modifies in place between the calls: every call must be the pure
+# function of the CURRENT contents (a result cached by object identity / a buffer kept from the previous call would
+# show here).  container: one ndarray, a list of arrays, a list holding the same array object twice.
+# --------------------------------------------------------------------------
+SEQ_CONTAINERS = ("ndarray", "list-of-arrays", "aliased-pair")
+
+
+def gen_sequence(T, rng, k):
+    cont = SEQ_CONTAINERS[k % 3]
+    n = int(rng.integers(2, 5))
+    es = [gen_case(T, rng, int(rng.integers(0, 12))) for _ in range(n)]
+    if len({e["kind"] for e in es}) == 1:
+        es[0] = gen_case(T, rng, 0 if es[0]["kind"] != "olivine" else 1)
+    ops = []
+    for _ in range(int(rng.integers(2, 5))):
+        what = ["replace", "scale", "swap", "replace"][int(rng.integers(0, 4))]
+        i = int(rng.integers(0, n))
+        if what == "replace":
+            ops.append(("replace", i, gen_case(T, rng, int(rng.integers(0, 12)))))
+        elif what == "scale":
+            ops.append(("scale", i, float(SCALES[int(rng.integers(0, len(SCALES)))])))
+        else:
+            ops.append(("swap", i, int((i + 1 + rng.integers(0, n - 1)) % n)))
+    ops.append(("restore",))
+    return dict(container=cont, entries=es, ops=ops)
+
+
+def seq_object(q):
+    """(object handed to elasticity_components, list of the n arrays the caller writes into, position -> array index)"""
+    mats = [np.array(c["M"], dtype=float) for c in q["entries"]]
+    n = len(mats)
+    if q["container"] == "ndarray":
+        arr = np.array(mats)
+        return arr, [arr[i] for i in range(n)], list(range(n))
+    if q["container"] == "list-of-arrays":
+        return list(mats), mats, list(range(n))
+    # the first array object also stands at the last position: writing into it changes two members
+    mats[-1] = mats[0]
+    return list(mats), mats, list(range(n - 1)) + [0]
+
+
+def seq_states(q):
+    """contents (list of case dicts per position) after each op; state 0 = initial"""
+    es = list(q["entries"])
+    n = len(es)
+    pos = list(range(n)) if q["container"] != "aliased-pair" else list(range(n - 1)) + [0]
+    cur = [es[p] for p in pos]
+    slots = {p: es[p] for p in set(pos)}
+    states = [list(cur)]
+    for op in q["ops"]:
+        if op[0] == "replace":
+            slots[pos[op[1]]] = op[2]
+        elif op[0] == "scale":
+            c = slots[pos[op[1]]]
+            slots[pos[op[1]]] = dict(kind=c["kind"], M0=c["M0"] * op[2], R=c["R"], M=c["M"] * op[2])
+        elif op[0] == "swap":
+            a, b_ = pos[op[1]], pos[op[2]]
+            slots[a], slots[b_] = slots[b_], slots[a]
+        else:
+            slots = {p: es[p] for p in set(pos)}
+        states.append([slots[p] for p in pos])
+    return states, pos
+
+
+def run_sequence(D, q):
+    """list of per-call records: (rows or error, rows of a fresh deep copy, touched positions)"""
+    x, arrays, pos = seq_object(q)
+    states, _ = seq_states(q)
+    out = []
+    for k, st in enumerate(states):
+        if k > 0:                           # write state k into the caller's arrays, in place
+            for p in sorted(set(pos)):
+                arrays[p][...] = st[pos.index(p)]["M"]
+        n = len(pos)
+        r, _ = run_series(D, x, n, record=False)
+        fresh = np.array([np.array(c["M"], dtype=float) for c in st])
+        rf, _ = run_series(D, fresh, n, record=False)
+        out.append((r, rf))
+    return out, states
+
+
+def sequence_failures(T, D, q):
+    """direct reading: every call reports, for every member, what the member's CURRENT contents give"""
+    with quiet():
+        recs, states = run_sequence(D, q)
+    f = []
+    kept = []
+    for k, ((r, rf), st) in enumerate(zip(recs, states)):
+        tag = f"call {k + 1} of {len(recs)} on one {q['container']} modified in place"
+        if r[0] == "ERR" or rf[0] == "ERR":
+            if (r[0] == "ERR") != (rf[0] == "ERR"):
+                f.append(f"{tag}: {'raised' if r[0] == 'ERR' else 'returned'} but a fresh copy of the same contents "
+                         f"{'raises' if rf[0] == 'ERR' else 'returns'}")
+            continue
+        for i, c in enumerate(st):
+            if c["kind"] in SPECIAL:
+                continue
+            if not same_bits(r[1][i], rf[1][i]):
+                j = int(np.argmax([not same_bits(p_, q_) for p_, q_ in zip(r[1][i], rf[1][i])]))
+                name = (KEYS + ["hexagonal_axis[0]", "hexagonal_axis[1]", "hexagonal_axis[2]"])[j]
+                f.append(f"{tag}, entry {i} ({c['kind']}): {name} = {r[1][i][j]!r} but {rf[1][i][j]!r} for a fresh copy of the "
+                         "same contents")
+        for (k0, rows0, out0) in kept:
+            now = rows_of(out0, len(st))
+            if not same_bits(now, rows0):
+                f.append(f"{tag}: the arrays returned by call {k0 + 1} changed")
+        kept.append((k, r[1].copy(), r[2]))
+    if recs and recs[0][0][0] == "OK" and recs[-1][0][0] == "OK" and not same_bits(recs[0][0][1], recs[-1][0][1]):
+        f.append("after the original contents were written back the call reports other numbers than the first call")
+    return f
+
+
+def encode_sequence(q):
+    def op(o):
+        return [o[0], o[1], encode(o[2])] if o[0] == "replace" else list(o)
+    return {"sequence": {"container": q["container"], "entries": [encode(c) for c in q["entries"]], "ops": [op(o) for o in q["ops"]]}}
+
+
+def decode_sequence(d):
+    d = d["sequence"]
+    ops = [("replace", o[1], decode(o[2])) if o[0] == "replace" else tuple(o) for o in d["ops"]]
+    return dict(container=d["container"], entries=[decode(c) for c in d["entries"]], ops=ops)
+
+
+def gen_sequences(T, chk, n=None, seed_offset=5):
+    rng = np.random.default_rng(chk.seed + seed_offset)
+    n = n if n is not None else (9 if chk.tier == "quick" else 300)
+    return [gen_sequence(T, rng, k) for k in range(n)]
+
+
+def compare_sequences(chk, T, D, seqs):
+    """returns (list of (sequence, detail), list of snapshot batches for the model comparison)"""
+    bad, snaps = [], []
+    h = chk.cov.setdefault("sequence_histogram", {})
+    st = chk.cov.setdefault("sequence_checks", {"sequences": 0, "calls": 0, "in_place_ops": 0})
+    for q in seqs:
+        h[q["container"]] = h.get(q["container"], 0) + 1
+        st["sequences"] += 1
+        st["in_place_ops"] += len(q["ops"])
+        st["calls"] += len(q["ops"]) + 1
+        for m_ in sequence_failures(T, D, q):
+            bad.append((q, m_))
+        states, _ = seq_states(q)
+        for stt in states[1:-1][:2]:             # contents after the first in-place writes: also against the model
+            snaps.append(dict(family="sequence-step", form="array", degenerate=None,
+                              entries=[dict(c, Min=c["M"]) for c in stt]))
+        chk.note_case(("sequence", q["container"], tuple(c["M"].tobytes() for c in q["entries"]), len(q["ops"])),
+                      nontrivial=True, sample={"container": q["container"], "ops": [o[0] for o in q["ops"]]})
+    return bad, snaps
+
+
 def gen_cases(T, chk):
     rng = np.random.default_rng(chk.seed)
     n = 300 if chk.tier == "quick" else 6000
@@ -641,10 +846,17 @@ def search(chk, T, D, extra=()):
 
 
 def run(chk):
-    ok, br = proofs.prove(chk, FILES, PROP, groups=(G.GROUP,), gen_modules=("tensors",))
+    ok, br = proofs.prove(chk, FILES, PROP, groups=(G.GROUP,), gen_modules=("tensors", "decomp"))
     import pydrex.tensors as T
     import pydrex.diagnostics as D
     chk.cov["trusted_base"] = common.TRUSTED_COMMON + [
+        "TIE T (new): translator/specs_decomp.py regenerates coq/gen/Gen_decomp.v from pydrex.diagnostics.elasticity_components and smallest_angle on every run "
+        "(eigh stays a function parameter; NumPy float64 value semantics, numba division semantics inside smallest_angle, np.sign as a fork; the pairing loop and the loop "
+        "over the series are summarised per iteration, justified by a static AST non-interference check that fails closed and a two-polarity cross-check); "
+        "Inst_decomp_base / Inst_decomp_seg0-2 / Inst_decomp prove generated = Model_decomp / Model_decomp_series for all inputs and all oracles; trusted: that translator module "
+        "and its mapping of the nine dictionary keys to row positions",
+        "PROVED (Proofs_decomp4/5): the frame clause for GENERAL tensors -- simple spectra of both contractions and eigh listing the eigenvectors in the same (ascending) order in both "
+        "frames => all eight numbers equal, axis co-rotates, no tie exclusion; the order / orthonormality / eigenvector hypotheses are residual-checked on every recorded eigh call",
         "hand-written Model_decomp.elasticity_components1 (K, G, isotropic vector, percent anisotropy, eigenvector pairing with the signed-index trick, "
         "three cyclic permutations with strict-< selection, nested projections); tied by this differential run on the recorded eigh outputs",
         "scipy.linalg.eigh is an oracle: orthonormal columns, S v = lambda v, ascending eigenvalues are residual-checked on every call",
@@ -652,7 +864,7 @@ def run(chk):
         "the candidate distances depend only on the axis put third (candidate_distance), the strict-< loop selects the strict minimum, hence "
         "hex_axis_corotates (axis of the rotated run = +- R . axis of the unrotated run) and equality of all eight reported numbers in both frames "
         "under the property's no-tie exclusion (strict minimum among the three candidate distances of the unrotated tensor); the sum rule on the whole function. "
-        "OPEN (carried by the run-time comparison): frame independence of all percentages for non-orthorhombic tensors",
+        "(frame independence for non-orthorhombic tensors: see the general theorem above; additionally echoed by the run-time comparison on texture averages)",
         "hand-written Model_decomp_series.elasticity_components_series (table of rows allocated up front, iteration m writes row m, an exception aborts "
         "the call); PROVED for every Num instance: it is the map of elasticity_components1 over the series, row k depends on entry k only (any "
         "companions, order, repetition, length), raises what the first raising entry raises; tied by the series correspondence (heterogeneous series "
@@ -667,19 +879,25 @@ def run(chk):
                        "garbage-below-the-diagonal / broadcast view; every row vs the extracted series model and the extracted single-matrix model on the recorded eigh "
                        "outputs (1e-9) and bit-for-bit vs the matrix decomposed alone; each call repeated after the caller overwrote the first result (bit-identical, no "
                        "shared memory, input unchanged); degenerate stream (zero / NaN / inf / negative member first, middle, last): the call raises iff an entry raises "
-                       "alone, with the first such entry's exception")
+                       "alone, with the first such entry's exception. NEW presentations: negative strides, transposed members, float32 + Fortran order, MIXED series (list / tuple whose members differ in dtype, "
+                       "layout and container: float64, float32, Fortran, strided, nested list (refused loudly), int64, reversed, read-only). CALL SEQUENCES (sequence_checks): one ndarray / list of arrays / "
+                       "list holding the same array twice, modified in place between the calls (replace, scale, swap, restore): every call bit-identical to a fresh deep copy of the current contents, earlier results "
+                       "unchanged, restored contents give the first result")
     bad = []
     badb = []
+    bads = []
     cases = []
     if br.drivers.get(G.GROUP, 1) is None:
         cases = gen_cases(T, chk)
         bad = compare(chk, T, D, cases)
-        batches = gen_batches(T, chk)
+        seqs = gen_sequences(T, chk)
+        bads, snaps = compare_sequences(chk, T, D, seqs)
+        batches = gen_batches(T, chk) + snaps
         badb = compare_batches(chk, T, D, batches)
         chk.cov["traces_validated_against_impl"] = len(cases) + len(batches)
         chk.cov["series_calls_validated"] = len(batches)
-    chk.cov["disagreements"] = len(bad) + len(badb)
-    if ok and not bad and not badb:
+    chk.cov["disagreements"] = len(bad) + len(badb) + len(bads)
+    if ok and not bad and not badb and not bads:
         return
     found = search(chk, T, D, extra=[c for c, _ in bad[:10]])
     seenb, extrab = set(), []
@@ -697,7 +915,21 @@ def run(chk):
                     f"{len(b['entries'])} matrices passed as {b['form']})", "input": encode_batch(b),
                     "observed": fails, "required": "C12 (see properties.jsonl): holds for every matrix of the series",
                     "broken": chk.cov.get("broken_obligations", []), "disagreements": [m for _, m in badb[:3]]})
-    if not found and not foundb:
+    founds, seenq = [], set()
+    for q in [q_ for q_, _ in bads] + (gen_sequences(T, chk, n=6, seed_offset=6) if not (found or foundb) or bads else []):
+        if id(q) in seenq or len(founds) >= 2:
+            continue
+        seenq.add(id(q))
+        fails = sequence_failures(T, D, q)
+        if fails:
+            founds.append((q, fails))
+    for q, fails in founds:
+        chk.replay({"kind": "property-violation", "call": "pydrex.diagnostics.elasticity_components called "
+                    f"{len(q['ops']) + 1} times on one {q['container']} that the caller modifies in place between the calls",
+                    "input": encode_sequence(q), "observed": fails[:6],
+                    "required": "C12 (see properties.jsonl): the numbers reported are those of the tensors handed over",
+                    "broken": chk.cov.get("broken_obligations", []), "disagreements": [m for _, m in bads[:3]]})
+    if not found and not foundb and not founds:
         chk.replay({"kind": "unproved", "broken": chk.cov.get("broken_obligations", []),
                     "disagreements": [{"input": encode(c), "detail": m} for c, m in bad[:3]] +
                                      [{"input": encode_batch(b), "detail": m} for b, m in badb[:3]],
@@ -712,7 +944,9 @@ def replay(d):
     if d.get("kind") != "property-violation":
         print("replay file names a broken obligation; re-run the check itself")
         return 1
-    if "batch" in d["input"]:
+    if "sequence" in d["input"]:
+        fails = sequence_failures(T, D, decode_sequence(d["input"]))
+    elif "batch" in d["input"]:
         fails = oracle_batch(T, D, decode_batch(d["input"]))
     else:
         fails = oracle(T, D, decode(d["input"]))
